@@ -17,7 +17,8 @@ BIN = [operator.add, operator.sub, operator.mul, operator.and_, operator.or_, op
        operator.lshift, operator.rshift, operator.eq, operator.ne, operator.lt, operator.le, operator.gt, operator.ge,
        p_min, p_max]
 UN = [operator.neg, operator.invert, abs, lambda x: P_int(x / 250), lambda x: P_int(x / -6), lambda x: x // 24, lambda x: x % 6,
-      lambda x: (x >> 3) & 7, lambda x: bool(x), lambda x: not x]
+      lambda x: (x >> 3) & 7, lambda x: bool(x), lambda x: not x, lambda x: P_int(round(x / 250)), lambda x: P_int(round(x / 4)),
+      lambda x: P_int(round(x / -6))]
 
 
 def ev(model, r):
